@@ -282,6 +282,7 @@ fn dispatch_search(cmd: &str, args: &[String], tier: &String, seed: u64, out: &S
         "c17-root-one" => posprops::replay_root_one(&arg(&args, "--fen").unwrap(), arg(&args, "--cap").and_then(|c| c.parse().ok()).unwrap_or(800), arg(&args, "--after-search").and_then(|c| c.parse().ok()).unwrap_or(0)),
         "c17-silent-one" => posprops::replay_silent_one(&arg(&args, "--fen").unwrap(), &arg(&args, "--node").unwrap(), arg(&args, "--cap").and_then(|c| c.parse().ok()).unwrap_or(800)),
         "c17-tight-one" => posprops::replay_tight_one(&arg(&args, "--fen").unwrap(), arg(&args, "--cap").and_then(|c| c.parse().ok()).unwrap_or(800)),
+        "c17-trace-ctx" => posprops::replay_trace_ctx(&arg(&args, "--fen").unwrap(), &arg(&args, "--node").unwrap(), arg(&args, "--cap").and_then(|c| c.parse().ok()).unwrap_or(800), arg(&args, "--after-search").and_then(|c| c.parse().ok()).unwrap_or(0)),
         "c17-one" => posprops::replay_one(Which::C17, &arg(&args, "--fen").unwrap()),
         _ => return None,
     })
